@@ -172,6 +172,14 @@ def _task(arg):
                         got = {cid(c) for c in f.call_method(obs[s], 'current_available_cards_in_dummy_hand')}
                         if got != legal:
                             fail('C06', 'playable set of dummy in a replica', f'{where}: the replica of {s} advertises for dummy {sorted(map(show, got))}, the follow-suit rule gives {sorted(map(show, legal))}')
+                    if s != seat and step % 3 == 0:
+                        # the playable cards of a seat's OWN hand do not depend on whose turn it is (asked of a replica out of turn: the follow-suit
+                        # set of that seat's hand for the cards on the table)
+                        own = orc.legal(s)
+                        got = {cid(c) for c in f.call_method(obs[s], 'current_available_cards_in_hand')}
+                        if got != own:
+                            fail('C06', 'playable set of a seat\'s own hand asked out of turn', f'{where}: the replica of {s} advertises for its own hand {sorted(map(show, got))[:6]}, '
+                                 f'the follow-suit rule gives {sorted(map(show, own))[:6]} for the hand of {s}')
                 except FoldRaise as r:
                     fail('C06', 'playable set of a replica raises', f'{where}: the replica of {s} raises {r.kind} when asked for the playable cards')
             # ---- C05: offending plays on a clone of the table manager's engine
